@@ -14,9 +14,11 @@ RULE = ('For every map the index can select under ISA versions 00401/00501 (both
         'non-trivial = distinct document hashes with >=1 situational node present and >=10 segments.')
 ASSUMPTIONS = ['only the unambiguous sub-language of each map is judged; shadowed nodes are counted, not judged',
                'the 830 map is indexed under ISA version 00400 which the reader refuses by design; it is covered by C14/C15/C16 only',
-               'ISA11 (repetition separator) and ISA16 are characters of the declared character set']
+               'ISA11 (repetition separator) and ISA16 are characters of the declared character set',
+               'loops that share one map position are an unordered group (the position is the order the map declares, not the listing order of the XML): a fifth of the documents '
+               'emit their instances interleaved, the first instance of every required sibling first']
 REQUIRED_COUNTERS = ['docs', 'accepted', 'segments', 'reach:walk', 'reach:_check_loop_usage', 'reach:_flush_mandatory_segs', 'reach:element_if.is_valid',
-                     'reach:composite_if.is_valid', 'maps-with-accepted-docs', 'acks-parsed']
+                     'reach:composite_if.is_valid', 'maps-with-accepted-docs', 'acks-parsed', 'docs:sibling-loops-interleaved', 'docs:sibling-loops-X,Y,X']
 MIN_CASES = {'quick': 250, 'thorough': 8000}
 WATCHDOG_S = {'quick': 1200, 'thorough': 7200}
 
@@ -113,14 +115,21 @@ def run(ctx):
     install_reach(ctx)
     entries = gen_doc.index_entries()
     per_map = 14 if ctx.quick else 420
+    extra = 6 if ctx.quick else 80
     sigs = set()
     n = 0
     for e in entries:
         label = e['file'] + ('/tspc=%s' % e['tspc'] if e.get('tspc') else '')
-        for k in range(per_map):
+        for k in range(per_map + extra):
             if not ctx.mine((label, k)):
                 continue
             kw = params_for(k, ctx.quick)
+            if k % 5 == 4 or k >= per_map:
+                # same-position sibling loops (837 2330A-G, 2420A-G, 835 1000A/B ...) are an unordered group: their instances interleaved,
+                # every other document with an X, Y, X pattern; the extra documents are kept only for maps that have such a group
+                kw.update(interleave=True, force_xyx=(k % 2 == 0 or k >= per_map))
+                if k >= per_map:
+                    kw.update(fill=[0.3, 0.5, 0.7][k % 3], n_isa=1, n_gs=1)
             seed = zlib.crc32(repr((ctx.seed, label, k)).encode())
             case = {'map': e['file'], 'entry': e, 'k': k, 'gen_seed': seed, 'params': kw}
             try:
@@ -134,6 +143,12 @@ def run(ctx):
                         ctx.viol('conformant:%s:%s' % (e['file'], res.exc_key), 'the map selected for an index entry cannot be used at all: validation raises', dict(case, envelope_only=True),
                                  {'exc': repr(res.exc)[:300]})
                 continue
+            if k >= per_map and not doc.meta.get('xyx_groups'):
+                continue
+            if doc.meta.get('interleaved_groups'):
+                ctx.count('docs:sibling-loops-interleaved')
+            if doc.meta.get('xyx_groups'):
+                ctx.count('docs:sibling-loops-X,Y,X')
             n += 1
             for path, cnt in doc.shadowed.items():
                 ctx.add('shadowed_nodes', e['file'] + '|' + path)
